@@ -38,15 +38,15 @@ def run(ctx):
     ctx.preload(cfgs)
     for cfg in cfgs:
         fs = ctx.facts(cfg)
-        consumers.ledger(ctx, cfg, fs, 'L.ledger')
-        consumers.primitives(ctx, cfg, fs, 'P.primitives')
-        consumers.itemstate(ctx, cfg, fs, 'P.primitives')
-        consumers.consumers(ctx, cfg, fs, 'C.read-remove')
-        consumers.leftover(ctx, cfg, fs, 'O.leftover')
-        discipline(ctx, cfg, fs)
-        snapshot(ctx, cfg, fs)
-        scope_restore(ctx, cfg, fs)
-        tokenizer_append_only(ctx, cfg, fs)
+        ctx.guard(consumers.ledger, ctx, cfg, fs, 'L.ledger')
+        ctx.guard(consumers.primitives, ctx, cfg, fs, 'P.primitives')
+        ctx.guard(consumers.itemstate, ctx, cfg, fs, 'P.primitives')
+        ctx.guard(consumers.consumers, ctx, cfg, fs, 'C.read-remove')
+        ctx.guard(consumers.leftover, ctx, cfg, fs, 'O.leftover')
+        ctx.guard(discipline, ctx, cfg, fs)
+        ctx.guard(snapshot, ctx, cfg, fs)
+        ctx.guard(scope_restore, ctx, cfg, fs)
+        ctx.guard(tokenizer_append_only, ctx, cfg, fs)
 
 def tokenizer_append_only(ctx, cfg, fs):
     """every call that can shrink a Vec<Arg> (the item list under construction): allowed is truncate(len saved at entry)"""
